@@ -12,6 +12,7 @@ ALL_INV = ["AtMostOnce", "DepsBefore", "SeedsPreserved", "OnlyGraphRuns", "Fires
 
 CLAUSE_PROP = [
     ("AtMostOnce", "C01"), ("DepsBefore", "C01"), ("SeedsPreserved", "C01"), ("OnlyGraphRuns", "C01"),
+    ("ObserversExact", "C01"),
     ("FiresIff", "C02"), ("ArgBinding", "C02"), ("MissingExact", "C02"), ("DisabledNeverFires", "C02"),
     ("NoEscape", "C03"), ("Isolation", "C03"), ("NothingElsewhere", "C03"), ("Accounted", "C03"),
     ("SkipRecorded", "C03"), ("NoPhantomExc", "C03"),
